@@ -1,16 +1,21 @@
 """C18: NNS accepts exactly well-formed names and record data (string validators of contracts/nns/contract.go)."""
-RULE = ("names: every string over {a,z,0,9,-,.,A,_,+,space} up to length 4 (quick; through isAvailable, registerTLD, register, the name "
-        "argument of addRecord and CNAME data) / up to 5 the same, length 6 through isAvailable + CNAME, length 7 through CNAME and every 8th "
-        "through isAvailable (thorough, sharded: 11.1 M strings), plus structured names (1-4 labels of length 1/2/15/16/17/62/63/64, totals "
-        "253-257, registered and unregistered TLDs, one mutation: case, hyphen, dot, punctuation, non-ASCII, invalid UTF-8); A data: the "
-        "exclusion list below/at/above every bound, ~50 octet shapes at every position, all c.c.c.c over {0,1,2,5,9,.,+,-}, every string up "
-        "to length 7 over that alphabet (thorough), random; AAAA data: '::' at every position with 0..9 groups, ~50 group shapes at every "
-        "position of a full and a compressed address, first/second group around every range bound, all tails up to length 6 over {0,f,:,+} "
-        "after a valid first group, every string up to length 7 over {2,0,a,F,:,+,g,-} (thorough), random; TXT lengths 0..1025 incl. "
-        "non-UTF-8; unsupported types; signer sets {none,u1,u2,committee,u1+u2,committee+u3}; committed histories (registerTLD/register/"
-        "addRecord/setRecord/getRecords, valid and invalid arguments) with a decoded storage scan after every transaction; corpus: the "
-        "F7/F8/F9 witnesses and the boundary inputs. op_histogram['exhaustive.*'] = number of strings of each exhaustive stratum. "
-        "distinct_nontrivial = distinct (operation, observation) pairs of HALTed invocations")
+RULE = ("names: every string over {a,z,0,9,-,.,A,_,+,space}: quick = all lengths 0..4 (11 111 strings) through isAvailable, CNAME addRecord and "
+        "CNAME setRecord, lengths 0..3 and every 4th string of length 4 also through registerTLD, register and the name argument of addRecord; "
+        "thorough (16 shards, 11.1 M strings) = lengths 0..5 through all six probes, length 6 through isAvailable + CNAME addRecord + CNAME "
+        "setRecord, length 7 (10^7 strings) through CNAME addRecord, every 8th also through isAvailable and every 8th through CNAME setRecord; "
+        "plus structured names (1-4 labels of length 1/2/15/16/17/62/63/64, totals 253-257, registered and unregistered TLDs, one mutation: "
+        "case, hyphen, dot, punctuation, non-ASCII, invalid UTF-8) and random names. Record data goes through addRecord (free slot) AND "
+        "through setRecord on a name that holds one valid record of every type at id 0 (setRecord validates data only behind an existing "
+        "record of the same type and id): A data: the exclusion list below/at/above every bound, ~50 octet shapes at every position, all "
+        "c.c.c.c over {0,1,2,5,9,.,+,-}, every string up to length 7 over that alphabet (thorough), random; AAAA data: '::' at every position "
+        "with 0..9 groups, ~50 group shapes at every position of a full and a compressed address, first/second group around every range "
+        "bound, all tails up to length 6 over {0,f,:,+} after a valid first group, every string up to length 7 over {2,0,a,F,:,+,g,-} "
+        "(thorough), random; TXT lengths 0..1025 incl. non-UTF-8; unsupported types; setRecord ids 0/1/15/16/255, identical value, value of "
+        "another id, second CNAME; signer sets {none,u1,u2,committee,u1+u2,committee+u3}; committed histories (registerTLD/register/"
+        "addRecord/setRecord incl. setRecord directed at existing records/getRecords, valid and invalid arguments) with a decoded storage "
+        "scan after every transaction; corpus: the F7/F8/F9 witnesses, the boundary inputs, setRecord on existing records. "
+        "op_histogram['exhaustive.*'] = number of strings of each exhaustive stratum, op_histogram['seconds.shardNN'] = wall seconds of "
+        "each shard's generation. distinct_nontrivial = distinct (operation, observation) pairs of HALTed invocations")
 PROPS = {
     "C18": dict(lean=["NeoFS.Props.C18"], driver="drv_nnssyntax", harness="nnssyntax", monitors=["C18"],
                 shards=dict(quick=1, thorough=16), rule=RULE, facts=["consts"],
